@@ -6,6 +6,8 @@ from fractions import Fraction
 
 import arithcheck
 import core
+import corecheck
+import e2e
 import gen
 import renderoracle
 from common import run_harness, run_model, qenc, Reader
@@ -71,7 +73,9 @@ def spec_input(sec_rows, init, at, case_rows=None):
             q = [src["sh"][1], src["aps"][1], com, rate, crate]
         elif src is not None and a == "RoC":
             q = [src["aps"][1], core.eff_rate(src.get("cur"), src.get("rate"))]
-        out += [0, 0, d["sd"], d["af"], int(bool(d["reg"])), 0, 0, 0]
+        # an affiliate id the numbering table does not know (only when the implementation's ids
+        # disagree with the case's: a correspondence difference, reported separately) gets a number of its own
+        out += [0, 0, d["sd"], d["af"] if isinstance(d["af"], int) else 999999, int(bool(d["reg"])), 0, 0, 0]
         if a == "Buy":
             out += [0] + sum((qenc(x) for x in q[:5]), [])
         elif a == "Sell":
@@ -114,11 +118,20 @@ def nontrivial(case, impl):
 
 def check_cases(res, ctx, cases, label):
     exe = ctx["exe"]
-    hc = [{"files": [core.to_csv(c["rows"])], "init": gen.init_specs(c), "render": True} for c in cases]
+    hc = [{"files": corecheck.split_files(c["rows"]), "init": gen.init_specs(c), "render": True} for c in cases]
     impl_raw = run_harness(exe, "core", hc)
     enc = [core.to_ints(c, 1) for c in cases]
     mod_raw = run_model([e[0] for e in enc])
     stats = ctx["stats"]
+    # end-to-end pass: the cells of the same CSV text through the extracted reader + bridge
+    # (coq/Model/Bridge.v) into the ledger model; must equal the implementation and the
+    # Python-encoded model run
+    e_diffs, e_st, _ = e2e.run_pass(hc, impl_raw, [e2e.init_pairs(c) for c in cases],
+                                    [core.parse_model(mo) for mo in mod_raw])
+    stats.update(e_st)
+    for k, d in e_diffs:
+        stats["correspondence_diffs"] += 1
+        ctx["corr_diffs"].append((cases[k], hc[k], d))
     spec_jobs = []
     for k, (c, e, io, mo) in enumerate(zip(cases, enc, impl_raw, mod_raw)):
         m = core.parse_model(mo)
@@ -126,7 +139,7 @@ def check_cases(res, ctx, cases, label):
         stats["evaluations"] += 1
         stats["impl-" + i["status"]] += 1
         stats["rows-%d" % min(40, 5 * (len(c["rows"]) // 5))] += 1
-        h = hashlib.sha1(hc[k]["files"][0].encode() + repr(hc[k]["init"]).encode()).hexdigest()
+        h = hashlib.sha1("\n".join(hc[k]["files"]).encode() + repr(hc[k]["init"]).encode()).hexdigest()
         if nontrivial(c, i) and h not in ctx["seen"]:
             ctx["seen"].add(h)
             stats["distinct_nontrivial"] += 1
@@ -245,6 +258,7 @@ def run(res, ctx):
                                   "deviations_above_1e-9_inside_class": st["known-large-magnitude-deviation"]},
         "arith_validation": av,
         "traces_validated_against_impl": st["evaluations"],
+        "e2e_evaluations": st["e2e-evaluations"],
     })
     res.assumptions += [
         "rounding half of C01 (|dec - exact| <= 1e-9 for any length) is measured on every generated history, not proved: see DESIGN.md C01",
